@@ -265,7 +265,7 @@ def run_groups(pid, groups, wd, verdict, workers=16):
     if traces:
         k = sorted(traces)[len(traces) // 2]
         stats["samples"] = [dict(group=groups[owner[k]]["cfg"]["name"], case={kk: vv for kk, vv in cases[k].items()}, real_events=len(traces[k]))]
-    if vlib.tier() == "thorough" and not verdict.violations and per:
+    if not verdict.violations and per:
         gi = sorted(per)[0]
         g = groups[gi]
         tf = os.path.join(wd, "dselftest.ndjson")
@@ -326,7 +326,7 @@ def run(pid):
         groups=[dict(group=g["cfg"]["name"], runs=len(g["cases"]), adversarial_sets_enumerated=g.get("enumerated", 0),
                      expect_all_done=g["expect_all"], expect_none_done=g["expect_none"]) for g in groups],
         real_events=stats["events"], runs_with_completion=stats["completed_runs"], drift_traces=stats["drift"], drift_kinds=stats["drift_kinds"],
-        monitors=MONITORS, known_findings_seen=sorted(verdict.known_seen), binding_selftest=stats.get("selftest", "thorough tier only"),
+        monitors=MONITORS, known_findings_seen=sorted(verdict.known_seen), binding_selftest=stats.get("selftest"),
         rule="real disc.Member runs on a harness-controlled per-link FIFO network: seeded schedules x policies x (honest | too few | too many | "
              "Byzantine message sets enumerated by TLC); every event log validated by TLC against DiscTrace.tla",
     ), [
